@@ -8,6 +8,7 @@ import Sqfs.Proofs.C19Readers
 import Sqfs.Proofs.RbTree
 import Sqfs.Proofs.C19Units
 import Sqfs.Proofs.C19Pool
+import Sqfs.Proofs.C19Deep
 /-!
 C19 — copies of library objects are well-formed, equivalent, independent and safely destroyable.
 
@@ -455,6 +456,60 @@ example : (∃ h' c, sqfsCopyTop desc exHX 7 = (h', some c) ∧ view h' c = view
     | some o4 =>
       have e : o4 = (exHX.objs 4).get (by decide) := by simp [ho]
       exact copy_equiv exHX U 4 o4 hb rfl ho (by subst e; exact ⟨by decide, by decide, by decide⟩)
+
+/-- `copy_equiv_deep` — `copy_equiv` over the **reachable owned sub-object graph**: besides the copy's own slots, every object
+the copy owns through a deep reference (`sqfs_copy` inside the hook: the two meta readers of a directory reader / xattr reader,
+the fragment table of a data reader) is a **fresh** object (`y ≥ h.nobj`: it did not exist before the call, so it is neither the
+original's sub-object nor anything else the user holds) that observes through every field, buffer and internal pointer exactly
+what the original's sub-object `r` observes; and `r` observes what it observed.  No kind of the library owns objects that own
+objects (meta readers and tables reference only the shared file / compressor, which are grabbed, not copied), so one level is the
+whole owned graph; the shared file and compressor are the same objects on both sides (`copy_balanced`: grabbed). -/
+theorem copy_equiv_deep (h : Heap) (U : Nat → Nat) (o : Nat) (ob : Obj)
+    (hb : Balanced h U) (hbud : h.budget = none) (hox : h.objs o = some ob) (hsh : ShapeOk (desc ob.kind) ob)
+    (hsub : ∀ r, some r ∈ ob.refs → ∃ or, h.objs r = some or ∧ ShapeOk (desc or.kind) or) :
+    ∃ h' c oc, sqfsCopyTop desc h o = (h', some c) ∧ h'.objs c = some oc ∧ view h' c = view h o ∧ view h' o = view h o ∧
+      ∀ (i r : Nat), ob.refs[i]? = some (some r) → (desc ob.kind).refs[i]? = some RefAct.deep →
+        ∃ y, oc.refs[i]? = some (some y) ∧ h.nobj ≤ y ∧ view h' y = view h r ∧ view h' r = view h r := by
+  obtain ⟨h', c, he, _, _, hb'⟩ := copy_balanced h U o hb hbud (by simp [hox])
+  have hlt : o < h.nobj := hb.bound o (by simp [hox])
+  obtain ⟨k, hk⟩ : ∃ k, h.nobj = k + 1 := ⟨h.nobj - 1, by omega⟩
+  have he' : sqfsCopy desc (k + 1) h o = (h', some c) := by rw [← hk]; exact he
+  obtain ⟨v1, v2⟩ := sqfsCopy_view desc desc_wellformed k hb hbud hox (by omega) hsh.1 hsh.2.1 hsh.2.2 he'
+  obtain ⟨hcl, _⟩ := hb'.user_live (x := c) (by simp)
+  obtain ⟨oc, hoc⟩ := Option.isSome_iff_exists.mp hcl
+  refine ⟨h', c, oc, he, hoc, v1, v2, ?_⟩
+  intro i r hi ha
+  obtain ⟨oc', y, h1, h2, h3, h4, h5⟩ := sqfsCopy_deep desc desc_wellformed k hb hbud hox (by omega) hsub he' i r hi ha
+  rw [hoc] at h1
+  cases h1
+  exact ⟨y, h2, h3, h4, h5⟩
+
+/-- instance: the directory reader (object 4) of `exHX`: both meta readers of the copy are fresh objects observing what the
+original's meta readers observe; the data reader (object 6): its fragment table -/
+example : (∃ h' c oc, sqfsCopyTop desc exHX 4 = (h', some c) ∧ h'.objs c = some oc ∧
+      ∃ y0 y1, oc.refs = [some y0, some y1] ∧ exHX.nobj ≤ y0 ∧ exHX.nobj ≤ y1 ∧ view h' y0 = view exHX 2 ∧ view h' y1 = view exHX 3) := by
+  obtain ⟨U, hb, _⟩ := exHX_balanced
+  have ho : exHX.objs 4 = some ((exHX.objs 4).get (by decide)) := (Option.some_get _).symm
+  obtain ⟨h', c, oc, he, hoc, _, _, hd⟩ := copy_equiv_deep exHX U 4 _ hb rfl ho (by refine ⟨by decide, by decide, by decide⟩) (by
+    intro r hr
+    have : r = 2 ∨ r = 3 := by
+      have e : ((exHX.objs 4).get (by decide)).refs = [some 2, some 3] := by decide
+      rw [e] at hr; simpa using hr
+    rcases this with rfl | rfl
+    · exact ⟨_, (Option.some_get (by decide)).symm, by decide, by decide, by decide⟩
+    · exact ⟨_, (Option.some_get (by decide)).symm, by decide, by decide, by decide⟩)
+  obtain ⟨y0, a1, a2, a3, _⟩ := hd 0 2 (by decide) (by decide)
+  obtain ⟨y1, b1, b2, b3, _⟩ := hd 1 3 (by decide) (by decide)
+  have hlen : oc.refs.length = 2 := by
+    have e1 : ((sqfsCopyTop desc exHX 4).2.bind (sqfsCopyTop desc exHX 4).1.objs).map (·.refs.length) = some 2 := by decide
+    rw [he] at e1
+    simpa [hoc] using e1
+  refine ⟨h', c, oc, he, hoc, y0, y1, ?_, a2, b2, a3, b3⟩
+  match hr : oc.refs, hlen with
+  | [p, q], _ =>
+    rw [hr] at a1 b1
+    simp at a1 b1
+    rw [a1, b1]
 
 /-- `copy_same_buffer_sizes`: for the kinds whose hooks duplicate every buffer at its allocated size — required
 of kinds that, like the data reader, index their cached blocks up to `block_size` without recording the allocated
